@@ -10,19 +10,27 @@
      (leafpair TAG E1 E2 L1 L2 SAME)      SAME: 1/0 = Go-level equality of (address, index, data), 2 = crafted bytes
      (labelpair TAG I1 I2 S1 S2)
      (statepair TAG (E..) (E..) (L..) (L..) I1 I2 S1 S2)     I.root = root of the real trie over the leaves
+                                                              (memo histories: the PERSISTED balances trie of each fork)
+     (memo TAG (OP..) #persistedRoot #refRoot)   OP ::= (r on db hash) | (c k db hash): a node start with tracking
+                                                 on/off resp. a tracker commit of k rounds, each with the accounts round
+                                                 and the hash round read from the database afterwards; persistedRoot = root
+                                                 of the stored balances trie at the end, refRoot = root of a fresh trie
+                                                 over the leaves of the account tables
 
    spec_ok (on the implementation's observations only; never uses the model's leaves):
      * two DIFFERENT entries (different (address, data) / (address, index, kind, data) / (key, value), or
        different classes) have different leaves; two different label inputs / states have different labels;
      * the byte at offset 4 of a 36-byte leaf is the HashKind of the entry's class (domain separation);
      * Go-level equality of the data agrees with equality of the encodings (injective encoding).
+     * memo: when the last start had tracking on, the persisted trie root is the root over the account tables
+       (the label is a function of the state, not of the tracking history).
    A collision between two different KV entries whose key‖value concatenations coincide is the
    recorded finding [kv_leaf_key_value_boundary]; every other collision is a violation.
    No proofs in this file. *)
 From Coq Require Import List NArith ZArith Bool String.
 Import ListNotations.
 From Verif.lib Require Import Term.
-From Verif.model Require Import CatchpointHash MerkleTrieSha.
+From Verif.model Require Import CatchpointHash CatchpointMemo MerkleTrieSha.
 Open Scope N_scope.
 
 Definition sha : bytes -> bytes := sha512_256.
@@ -243,4 +251,41 @@ Definition check_H (t : term) : term :=
   end.
 End Check.
 
-Definition check (t : term) : term := check_H sha t.
+
+(* ---------- tracking-mode histories (model/CatchpointMemo.v) ---------- *)
+(* result: final model state, all (db, hash) observations matched, an off-commit was followed by a start with tracking on *)
+Fixpoint memo_go (ops : list term) (s : x_state) (ok offc exercised : bool) : option (x_state * bool * bool) :=
+  match ops with
+  | [] => Some (s, ok, exercised)
+  | TL [TS "r"; b; db; hash] :: rest =>
+      match as_bool b, as_N db, as_N hash with
+      | Some b', Some db', Some hash' =>
+          let s' := x_step false s (Restart b') in
+          memo_go rest s' (ok && (m_db s' =? db') && (m_hash s' =? hash')) offc (exercised || (b' && offc))
+      | _, _, _ => None
+      end
+  | TL [TS "c"; k; db; hash] :: rest =>
+      match as_N k, as_N db, as_N hash with
+      | Some (Npos k'), Some db', Some hash' =>
+          let s' := x_step false s (Commit k' tt) in
+          memo_go rest s' (ok && (m_db s' =? db') && (m_hash s' =? hash')) (offc || negb (m_on s)) exercised
+      | _, _, _ => None
+      end
+  | _ => None
+  end.
+
+Definition check_memo (ops : list term) (persisted ref : bytes) : term :=
+  match memo_go ops x_fresh true false false with
+  | None => v_parse
+  | Some (s, ok, exercised) =>
+      let same := bytes_eqb persisted ref in
+      let spec := if m_on s then same else true in
+      let corr := ok && Bool.eqb (x_current s) same in
+      verdict spec corr exercised (TL [tn (m_db s); tn (m_hash s); tb (x_current s)])
+  end.
+
+Definition check (t : term) : term :=
+  match t with
+  | TL [TS "memo"; _; TL ops; TB persisted; TB ref] => check_memo ops persisted ref
+  | _ => check_H sha t
+  end.
